@@ -5,7 +5,7 @@ stored values (`SameButValues`) answer whole batches, requests and histories ali
 Why a RELATION here and not an equation `… (e.mapV g) … = (… e …).mapV g`: an item that inserts
 an object takes its value from the request / the backend answer, so after the item the new object
 carries the SAME value in both runs while `(…).mapV g` would scramble it — the equation is false as
-soon as a batch creates an object and then reads it (`C20E.mapV_equation_false_for_batches` in Props/C20Engine.lean).  The
+soon as a batch creates an object and then reads it (`C20Engine.mapV_equation_false_for_batches` in Props/C20Engine.lean).  The
 relation "equal after blanking every value" is the most general one (any two states that differ only
 in values, empty ↔ empty, are related) and it is preserved by every effect.
 -/
